@@ -21,4 +21,24 @@ PROPS = {
                         "values attached to items are opaque"],
         "explanation": "heap invariant + bag refinement proved for all histories; model tied to utils/priority_queue.go by fact reverse_copies and by state-level differential scripts over several handles",
     },
+    "C10": {
+        "model_targets": ["Routing/Model.vo"],
+        "n": {"quick": 4000, "thorough": 60000},
+        "facts": ["uuid_mod_shape", "owner_fn_shape", "write_paths_via_owner_fn"],
+        "theorems": ["C10_range", "C10_total", "C10_value", "C10_paths", "C10_locality", "C10_write_total", "C10_zero_count_crashes", "C10_facts_ok"],
+        "axioms_allowed": [],
+        "trusted": ["factx shape facts for UuidMod / getPartitionForId / the six write paths; simulated 3-node cluster (in-memory RPC shims over the real service objects, single- and two-replica raft groups)"],
+        "assumptions": ["partition_count > 0 (0 is a crash, see C12)", "restart recomputes the same function: the owner depends only on id bytes and the catalogue's partition count"],
+        "explanation": "range/value/stability/locality proved for all ids and counts; UuidMod compared value-for-value with the model incl. every m in 1..1024 and boundary ids; holder partition observed after writes through all six paths via every entry node",
+    },
+    "C16": {
+        "model_targets": ["Cluster/Placement.vo"],
+        "n": {"quick": 160, "thorough": 3000},
+        "facts": ["placement_copies", "placement_shuffle_per_partition"],
+        "theorems": ["C16_valid", "C16_independent", "C16_alias_refuted", "C16_facts_ok"],
+        "axioms_allowed": [],
+        "trusted": ["math/rand's Shuffle is modelled as Fisher-Yates with draws recovered by replaying the seed with a recording swap; Go map iteration order of Conn.NodeIds() treated as an unknown injective renaming"],
+        "assumptions": ["member ids are distinct (map keys)", "membership = Conn.NodeIds() at the time of the call (see C20)"],
+        "explanation": "validity for all draws, surjectivity of the per-partition shuffles onto all tuples of member permutations (independence), aliasing collapse as regression; real getPartitionsNodeIds compared with the model up to renaming on seeded runs",
+    },
 }
